@@ -15,7 +15,9 @@ PROCEDURE_START_PREFIX = re.compile(r"(?i)procedure\s+(\w+)\s*$")
 INVOKED_PROCEDURE_NAMES = re.compile(r'(?i)\s*RUN\s+(\w+)(?=[^"]*(?:"[^"]*"[^"]*)*$)')
 
 # Finds STRING<<>> occurences so that they can be replaced with storage sizes
-STR_STORAGE_TAG = re.compile(r'(?i)\:\s*STRING\<\<\>\>(?=[^"]*(?:"[^"]*"[^"]*)*$)')
+STR_STORAGE_TAG = re.compile(
+    r'(?im)\:\s*STRING\<\<\>\>(?=[^"\n]*(?:"[^"\n]*"[^"\n]*)*$)'
+)
 
 
 class ProcedureBank(object):
